@@ -364,6 +364,15 @@ def solveLoopX (eps : α) : Nat → SolveStX α → SolveStX α
     let st' := solveBodyX eps st
     if st'.stop = .running then solveLoopX eps fuel st' else st'
 
+/-- the loop with a re-tabulation of the state after every pass (what the native driver runs);
+`solveLoopXWith id = solveLoopX` -/
+def solveLoopXWith (norm : McSx α → McSx α) (eps : α) : Nat → SolveStX α → SolveStX α
+  | 0, st => { st with stop := .maxIter }
+  | fuel + 1, st =>
+    let st' := solveBodyX eps st
+    let st' := { st' with s := norm st'.s }
+    if st'.stop = .running then solveLoopXWith norm eps fuel st' else st'
+
 def solveX (s : McSx α) (eps : α) (maxIter : Nat) : SolveStX α :=
   solveLoopX eps maxIter { s := s, iter := 0, shrinkCounter := 0, stop := .running }
 
